@@ -67,6 +67,45 @@ def num(x):
     return str(x) if x >= 0 else "-%d" % -x
 
 
+def pick(ctx, case, fails):
+    """Several operators of one case may fail: an unexplained failure wins; explained ones are all counted."""
+    if not fails:
+        return None
+    chosen = None
+    for f in fails:
+        if f.sig not in ctx.open_sigs:
+            chosen = f
+            break
+    chosen = chosen or fails[0]
+    for f in fails:
+        if f is not chosen and f.sig in ctx.open_sigs:
+            ctx.excluded_known[f.sig] += 1
+            if f.sig not in ctx.known_seen:
+                ctx.known_seen[f.sig] = {"case": case, "message": f.msg}
+            if hasattr(ctx, "dev_all"):
+                ctx.dev_all(case, f)
+    return chosen
+
+
+def sut_ns(frac_digits):
+    """nanoseconds the SUT derives from a fraction (binary floating point, truncated): used for diagnosis only"""
+    return int(float("0." + frac_digits) * 1e9) if frac_digits else 0
+
+
+def sut_instant(text, off):
+    """instant of a date-time literal as the SUT computes it, given the offset"""
+    v = cal.parse_dt(text)[1]
+    frac = text.split("T", 1)[1]
+    digits = ""
+    if "." in frac:
+        digits = frac.split(".", 1)[1]
+        n = 0
+        while n < len(digits) and digits[n].isdigit():
+            n += 1
+        digits = digits[:n]
+    return cal.instant_ns(v["y"], v["m"], v["d"], v["h"], v["mi"], v["s"], sut_ns(digits), off)
+
+
 def fdate(t):
     return "date(%s, %d, %d)" % (num(t[0]), t[1], t[2])
 
@@ -208,6 +247,7 @@ def judge_dates(ctx, case, resp):
     if f:
         return f
     exp = expected_order(a, b, c)
+    fails = []
     for op, e, g in zip(DATE_OPS, exp, items):
         if e is None:
             continue
@@ -216,12 +256,12 @@ def judge_dates(ctx, case, resp):
             involved = (a, b, c) if "c" in op else (a, b)
             if any(not in_chrono_date(t[0]) for t in involved) and ((e is True and g is False) or is_null(g)) and op not in ("a = b", "a != b"):
                 sig = "C15/date-order-outside-chrono-range"
-            return Fail(sig, "%s: %s is %r, expected %r" % (what, op, g, e))
-    return None
+            fails.append(Fail(sig, "%s: %s is %r, expected %r" % (what, op, g, e)))
+    return pick(ctx, case, fails)
 
 
 def gen_ymd(src, wide=True):
-    cls = src.weighted([(5, "common"), (2, "small"), (2, "chrono-edge"), (2, "wide")]) if wide else "common"
+    cls = src.weighted([(6, "common"), (2, "small"), (1, "chrono-edge"), (1, "wide")]) if wide else "common"
     if cls == "common":
         y = src.int(1000, 9999)
     elif cls == "small":
@@ -323,10 +363,11 @@ def judge_date3(ctx, case, resp):
             sig = "C15/date3-out-of-range-accepted"
             y, m, d = (int(v) for v in vals)
             gy, gm, gd = (jnum(i) for i in items[1:4])
-            if abs(y) >= 2 ** 31 and gy == 0 and 1 <= m <= 12 and gm == m and gd == d:
-                sig = "C15/date3-year-outside-i32-becomes-0"
-            elif abs(y) < 2 ** 31 and gy == y and (m > 255 or d > 255) and gm == sut_u8(ms) and gd == sut_u8(ds):
-                sig = "C15/date3-month-day-u8-narrowing"
+            model_y = y if abs(y) < 2 ** 31 else 0
+            if m > 0 and d > 0 and (gy, gm, gd) == (model_y, sut_u8(ms), sut_u8(ds)):
+                parts = (["year-outside-i32-becomes-0"] if model_y != y else []) + (["month-day-u8-narrowing"] if m > 255 or d > 255 else [])
+                if parts:
+                    sig = "C15/date3-" + "+".join(parts)
             return Fail(sig, "%s must be null (component outside its range) but is %r" % (what, x))
         return None
     if is_null(x):
@@ -402,6 +443,11 @@ def judge_dts(ctx, case, resp):
     rng = tb <= tc
     exp = [ta == tb, ta != tb, ("dtd", ta - tb), ("dtd", tb - ta), tb <= ta <= tc, (tb <= ta <= tc) if rng else None,
            (tb < ta < tc) if rng else None, ta < tb, ta <= tb, ta > tb, ta >= tb, ta < tb, ta <= tb, ta > tb, ta >= tb]
+    sa, sb, sc = (sut_instant(case[k], o) for k, o in zip("abc", offs))
+    lossy = (sa, sb, sc) != (ta, tb, tc)
+    model = [sa == sb, sa != sb, ("dtd", sa - sb), ("dtd", sb - sa), sb <= sa <= sc, sb <= sa <= sc, sb < sa < sc,
+             sa < sb, sa <= sb, sa > sb, sa >= sb, sa < sb, sa <= sb, sa > sb, sa >= sb]
+    fails = []
     for op, e, g in zip(DT_OPS, exp, items):
         if e is None:
             continue
@@ -422,8 +468,12 @@ def judge_dts(ctx, case, resp):
                 sig = "C15/datetime-null-outside-chrono-range"
             elif isinstance(e, tuple) and abs(e[1]) > I64_MAX:
                 sig = "C15/datetime-subtraction-null-beyond-292-years"
-        return Fail(sig, "%s: %s is %r, expected %s" % (what, op, g, cal.fmt_dtd(e[1]) if isinstance(e, tuple) else e))
-    return None
+        elif lossy:
+            mo = model[DT_OPS.index(op)]
+            if (isinstance(mo, tuple) and got == mo[1]) or (not isinstance(mo, tuple) and g is mo):
+                sig = "C15/literal-fraction-float-loss"      # C14's defect: an operand literal lost a nanosecond when read
+        fails.append(Fail(sig, "%s: %s is %r, expected %s" % (what, op, g, cal.fmt_dtd(e[1]) if isinstance(e, tuple) else e)))
+    return pick(ctx, case, fails)
 
 
 def fmt_dt(fields, zone_text, digits=None):
@@ -679,6 +729,7 @@ def judge_durs(ctx, case, resp):
     rng = b <= c
     exp = [("d", a + b), ("d", a - b), ("d", -a), a == b, a != b, b <= a <= c, (b <= a <= c) if rng else None, (b < a < c) if rng else None,
            a < b, a <= b, a > b, a >= b, a < b, a <= b, a > b, a >= b]
+    fails = []
     for op, e, g in zip(DUR_OPS, exp, items):
         if e is None:
             continue
@@ -698,7 +749,7 @@ def judge_durs(ctx, case, resp):
                 sig = "C15/operator-null/sub/" + ka
             elif op == "-a" and ka == "ymd":
                 sig = "C15/operator-null/neg/ymd"
-        return Fail(sig, "%s: %s is %r, expected %s" % (what, op, g, fmt(e[1]) if isinstance(e, tuple) else e))
+        fails.append(Fail(sig, "%s: %s is %r, expected %s" % (what, op, g, fmt(e[1]) if isinstance(e, tuple) else e)))
     comp = dict(zip(DUR_OPS[16:], items[16:]))
     if ka == "dtd":
         secs = trunc_div(a, cal.NS)
@@ -709,14 +760,14 @@ def judge_durs(ctx, case, resp):
             sig = "C15/duration-components-wrong"
             if a < 0 and all(got[k] is not None and got[k] == -want[k] for k in want):
                 sig = "C15/dtd-components-lose-the-sign"
-            return Fail(sig, "%s: days/hours/minutes/seconds of a are %r; consistent with its length %s would be %r" % (
-                what, [comp[k] for k in want], fmt(a), [want[k] for k in want]))
+            fails.append(Fail(sig, "%s: days/hours/minutes/seconds of a are %r; consistent with its length %s would be %r" % (
+                what, [comp[k] for k in want], fmt(a), [want[k] for k in want])))
     else:
         want = {"a.years": trunc_div(a, 12), "a.months": a - trunc_div(a, 12) * 12}
         got = {k: jnum(comp[k]) for k in want}
         if got != want:
-            return Fail("C15/duration-components-wrong", "%s: years/months of a are %r, expected %r" % (what, [comp[k] for k in want], want))
-    return None
+            fails.append(Fail("C15/duration-components-wrong", "%s: years/months of a are %r, expected %r" % (what, [comp[k] for k in want], want)))
+    return pick(ctx, case, fails)
 
 
 def gen_dtd_total(src):
@@ -816,11 +867,11 @@ def run(ctx):
                   exhaustive=ctx.thorough())
     ctx.enumerate(ctx.p_date3, enum_date3(ctx), name="date(y, m, d) component sweep", exhaustive=True)
     ctx.enumerate(ctx.p_zone_grid, enum_zone_grid(ctx), name="curated zones x 24 instants 1980..2020: offset, timezone, weekday")
-    ctx.forall(ctx.p_dates, ctx.scale(15000, 400000))
-    ctx.forall(ctx.p_dts, ctx.scale(15000, 400000))
-    ctx.forall(ctx.p_props, ctx.scale(8000, 200000))
-    ctx.forall(ctx.p_ym, ctx.scale(15000, 400000))
-    ctx.forall(ctx.p_durs, ctx.scale(12000, 300000))
+    ctx.forall(ctx.p_dates, ctx.scale(25000, 500000))
+    ctx.forall(ctx.p_dts, ctx.scale(30000, 600000))
+    ctx.forall(ctx.p_props, ctx.scale(12000, 250000))
+    ctx.forall(ctx.p_ym, ctx.scale(25000, 500000))
+    ctx.forall(ctx.p_durs, ctx.scale(20000, 400000))
 
 
 if __name__ == "__main__":
